@@ -169,6 +169,138 @@ func runReadRace(sc sweepScenario) sweepResult {
 	return res
 }
 
+// runGateRace (C06; ExpireRace.tla): the other order of the read race.  The reader samples the clock shortly before the
+// deadline and is parked inside the expiry calculator; the deadline passes; maintenance starts, the timer wheel hands the
+// node to the eviction callback and the sweeper is parked at the gate "ev.beforeDelete" (ExpireRace.tla: s_ev), i.e. after
+// the wheel's test of the deadline and before the removal inside the key's table computation; the reader completes (its
+// store extends the deadline beyond the sweep's clock value); the sweeper continues.  Whatever the cache decides to do with
+// the entry, the cause it reports must match what happened: a cache that is not above its maximum (or has none) never
+// reports Overflow.  Later, once the extended deadline has passed by more than a tick, the entry must be gone and reported
+// exactly once.
+func runGateRace(sc sweepScenario) sweepResult {
+	res := sweepResult{T: "sweep", Sc: sc, TickNs: 1 << 30, NoPressure: 1}
+	clk := &stallClock{never: make(chan time.Time), stalled: make(chan struct{}), resume: make(chan struct{})}
+	clk.now.Store(int64(5) << 30)
+	calc := &parkCalc{ttl: time.Duration(sc.TTL), parked: make(chan struct{}), resume: make(chan struct{})}
+	var mu sync.Mutex
+	o := &Options[int, int]{
+		Clock:            clk,
+		ExpiryCalculator: calc,
+		OnDeletion: func(e DeletionEvent[int, int]) {
+			if e.Key != 1 {
+				return
+			}
+			mu.Lock()
+			switch e.Cause {
+			case CauseExpiration:
+				res.Expired++
+			case CauseOverflow:
+				res.Overflow++
+				res.Other++
+			default:
+				res.Other++
+			}
+			mu.Unlock()
+		},
+	}
+	if sc.Sized == 1 {
+		o.MaximumSize = sc.Max + 4 // one entry: never under size pressure
+	}
+	if sc.SyncExec == 1 {
+		o.Executor = func(fn func()) { fn() }
+	}
+	c := Must(o)
+	defer c.StopAllGoroutines()
+	c.Set(1, 11) // the only entry: the first node handed to the eviction callback is the racing one
+	c.CleanUp()
+	clk.now.Add(sc.TTL - 1000) // shortly before the deadline
+	rdone := make(chan struct{})
+	go func() {
+		defer close(rdone)
+		calc.gid.Store(verifkit.GoID())
+		calc.armed.Store(true)
+		switch sc.Op {
+		case "gate.getentry":
+			c.GetEntry(1)
+		default:
+			c.GetIfPresent(1)
+		}
+	}()
+	select {
+	case <-calc.parked:
+	case <-time.After(3 * time.Second):
+		res.Hang = 1
+		return res
+	}
+	clk.now.Add(1000 + sc.Jump) // the deadline passes
+	raceNow := clk.now.Load()
+	gate := make(chan struct{})
+	atGate := make(chan struct{})
+	var sweeper atomic.Uint64
+	var once sync.Once
+	verifhookInstall(func(id string, v uint64) {
+		if id == "ev.beforeDelete" && verifkit.GoID() == sweeper.Load() {
+			once.Do(func() {
+				close(atGate)
+				<-gate
+			})
+		}
+	})
+	defer verifhookInstall(nil)
+	swept := make(chan struct{})
+	go func() {
+		defer close(swept)
+		sweeper.Store(verifkit.GoID())
+		c.CleanUp()
+	}()
+	select {
+	case <-atGate:
+		res.Gated = 1
+	case <-swept: // nothing was handed to the eviction callback
+	case <-time.After(3 * time.Second):
+		res.Hang = 1
+		close(gate)
+		return res
+	}
+	calc.resume <- struct{}{}
+	select {
+	case <-rdone:
+	case <-time.After(3 * time.Second):
+		res.Hang = 1
+		close(gate)
+		return res
+	}
+	close(gate)
+	select {
+	case <-swept:
+	case <-time.After(3 * time.Second):
+		res.Hang = 1
+		return res
+	}
+	verifhookInstall(nil)
+	time.Sleep(2 * time.Millisecond)
+	c.CleanUp()
+	res.EstMid = c.EstimatedSize()
+	if e, ok := c.GetEntryQuietly(1); ok {
+		res.MidPresent = 1
+		if e.ExpiresAtNano > raceNow {
+			res.MidAlive = 1
+		}
+	}
+	clk.now.Add(sc.Later)
+	c.CleanUp()
+	time.Sleep(2 * time.Millisecond)
+	c.CleanUp()
+	res.Est = c.EstimatedSize()
+	if _, ok := c.GetIfPresent(1); ok {
+		res.Visible = 1
+	}
+	time.Sleep(2 * time.Millisecond)
+	mu.Lock()
+	defer mu.Unlock()
+	return res
+}
+
 type sweepResult struct {
 	T       string        `json:"t"`
 	Sc      sweepScenario `json:"sc"`
@@ -180,6 +312,12 @@ type sweepResult struct {
 	TickNs  int64         `json:"tickns"`
 	Hang    int           `json:"hang"`
 	Live    int           `json:"live"` // readrace, sized: entries iteration yields after the cache was filled
+	// gated read races (runGateRace)
+	Overflow   int `json:"overflow"`   // Overflow events delivered for the racing key
+	Gated      int `json:"gated"`      // 1 = the sweeper was parked at ev.beforeDelete for the racing key's node
+	NoPressure int `json:"nopressure"` // 1 = the cache was never above its maximum (or has none) during the scenario
+	MidPresent int `json:"midpresent"` // 1 = the entry was present (GetEntryQuietly) right after the race
+	MidAlive   int `json:"midalive"`   // 1 = its deadline (as reported then) lay after the clock value of the race
 }
 
 func runSweepScenario(sc sweepScenario) sweepResult {
@@ -282,6 +420,10 @@ func TestVerifSweep(t *testing.T) {
 	defer w.Flush()
 	enc := json.NewEncoder(w)
 	for _, sc := range scs {
+		if len(sc.Op) > 5 && sc.Op[:5] == "gate." {
+			_ = enc.Encode(runGateRace(sc))
+			continue
+		}
 		if len(sc.Op) > 5 && sc.Op[:5] == "read." {
 			_ = enc.Encode(runReadRace(sc))
 			continue
